@@ -318,7 +318,7 @@ def generate(repo):
             n_h += 1
         if not fixed:
             name = "c11_%s_too_wide" % p
-            out.append("""// @h props=C11,C13 tier=quick group=putters allow=in.function.bytes::panic_does_not_fit must_fail=in.function.bytes::panic_does_not_fit note=%s_nbytes>8
+            out.append("""// @h props=C11,C13 tier=quick group=putters allow=@PANIC@ must_fail=@PANIC@ note=%s_nbytes>8
 #[kani::proof]
 #[kani::unwind(12)]
 pub fn %s() {
